@@ -6,6 +6,7 @@ import (
 	"context"
 	"errors"
 	"fmt"
+	"io"
 	"net"
 	"time"
 
@@ -25,6 +26,7 @@ type CliCfg struct {
 	WriteFaults []int
 	DialFaults  bool // a dial may be refused
 	SrvClose    bool // the server may close right after replying
+	LibMw       bool // the client is built with the library's own middlewares (TimeoutMiddleware, CorrelationValueMiddleware, DebugMiddleware)
 	SrvStray    bool // the server sends an unsolicited request message before every response (the client must skip it)
 	CheckFaults bool // apply the C11 recovery oracle
 	AfterClose  bool // after Close: a further call must fail, second Close must not panic
@@ -152,6 +154,13 @@ func clientScenario(cfg CliCfg) func() {
 		if !cfg.Negotiate {
 			opts = append(opts, kmipclient.EnforceVersion(kmip.V1_4))
 		}
+		if cfg.LibMw {
+			n := 0
+			opts = append(opts, kmipclient.WithMiddlewares(
+				kmipclient.CorrelationValueMiddleware(func() string { n++; return fmt.Sprint("corr", n) }),
+				kmipclient.TimeoutMiddleware(time.Second),
+				kmipclient.DebugMiddleware(io.Discard, nil)))
+		}
 		f0 := w.faults
 		cl, err := kmipclient.DialContext(context.Background(), "mc", opts...)
 		if err != nil {
@@ -217,6 +226,8 @@ func init() {
 	cli("cli-par-cancel", "caller A (cancellable) concurrent with caller B, then C after B", CliCfg{Callers: [][]Call{{{ID: "A", Ctx: "cancel"}}, {{ID: "B"}, {ID: "C"}}}})
 	cli("cli-par-3", "three concurrent callers, one cancellable", CliCfg{Callers: [][]Call{{{ID: "A", Ctx: "cancel"}}, {{ID: "B"}}, {{ID: "C"}}}})
 	cli("cli-stray-requests", "the server sends an unsolicited request message before every response; callers A (cancellable) and B, then C", CliCfg{SrvStray: true, Callers: [][]Call{{{ID: "A", Ctx: "cancel"}, {ID: "C"}}, {{ID: "B"}}}})
+	cli("cli-par-2-libmw", "two concurrent callers through the library's own middlewares (correlation value, 1 s timeout, debug)", CliCfg{LibMw: true, Callers: [][]Call{{{ID: "A"}}, {{ID: "B"}}}})
+	cli("cli-par-3-libmw", "three concurrent callers (one cancellable, one with a follow-up call) through the library's own middlewares", CliCfg{LibMw: true, Callers: [][]Call{{{ID: "A", Ctx: "cancel"}}, {{ID: "B"}, {ID: "D"}}, {{ID: "C"}}}})
 	cli("cli-negotiate-cancel", "dial with version discovery, then A cancellable, then B", CliCfg{Negotiate: true, Callers: [][]Call{{{ID: "A", Ctx: "cancel"}, {ID: "B"}}}})
 	// C11
 	rf := []int{FEOF, FReset, FShort}
